@@ -156,7 +156,7 @@ __wrap_alarm(unsigned int s)
 	unsigned int rem = alarm_at > vt ? (unsigned int)(alarm_at - vt) : 0U;
 
 	h_begin("alarm", vt);
-	h_int("s", s);
+	h_int("sec", s);
 	h_end();
 	alarm_at = s ? vt + (double)s : -1.;
 	return rem;
@@ -456,9 +456,25 @@ int
 __wrap_close(int fd)
 {
 	if (M.active && fd == M.wfd) {
+		char fn[700];
+		int mfd_;
+
 		M.active = 0;
+		/* the mail goes to a file of its own, it can be megabytes */
+		snprintf(fn, sizeof(fn), "%s/mail.bin", X.rundir);
+		if ((mfd_ = __real_open(fn, O_WRONLY | O_CREAT | O_TRUNC, 0644)) >= 0) {
+			size_t o = 0U;
+			while (o < M.z) {
+				ssize_t n = __real_write(mfd_, M.buf + o, M.z - o);
+				if (n <= 0) {
+					break;
+				}
+				o += n;
+			}
+			__real_close(mfd_);
+		}
 		h_begin("mail", vt);
-		h_str("data", M.buf ? M.buf : "", M.z);
+		h_int("bytes", M.z);
 		h_end();
 	}
 	return __real_close(fd);
@@ -752,8 +768,8 @@ host_next_wake(double now, double due, int ioready)
 	if (!ioready && A.alive && !A.exited && A.wake > vt) {
 		/* everybody sleeps: jump to what comes first */
 		double t = A.wake;
-		if (alarm_at > vt && alarm_at < t) {
-			t = alarm_at;
+		if (alarm_at >= 0. && alarm_at < t) {
+			t = alarm_at > vt ? alarm_at : vt;
 		}
 		vt = t;
 	} else if (!ioready && A.alive && A.exited && A.reaped) {
